@@ -24,6 +24,16 @@ for r in res:
             bad.append(r["name"])
 print(len(res), "scenarios; guards:", dict(g))
 print("lease environment holds on", envok, "traces,", envok_flag, "of them with a claim; contradicting the theorem:", bad[:5])
+nT = [r for r in res if r.get("envt_first") == -1]
+print("timed environment holds on", len(nT), "traces;", sum(1 for r in nT if r["env_first"] != -1), "of them outside the untimed environment;",
+      "with 201/202:", [r["name"] for r in nT if any(c in (201, 202) for _, c in r["alarms"])][:5])
+import collections as _c
+why = _c.Counter()
+for r in res:
+    if r.get("envt_first", -1) not in (-1, None):
+        tr = simlib.trace_of(r); i = r["envt_first"]
+        why[tr[i].split()[1] if i < len(tr) else "?"] += 1
+print("first observation outside the timed environment, by kind:", dict(why))
 print("alarms:", sorted(a.items()))
 for c, (r, i) in ex.items():
     tr = simlib.trace_of(r)
